@@ -225,8 +225,10 @@ func (i *Int) EuclideanDivVarTime(remainder *Nat, numerator, denominator *Int) (
 		qan.Neg(&qa)
 		qOut.Set(&qan)
 	}
+	// i may alias numerator: take the numerator's length before i is written.
+	qLen := min(numerator.AnnouncedLen(), numerator.AnnouncedLen()-denominator.TrueLen()+2)
 	i.Set(&qOut)
-	i.Resize(min(numerator.AnnouncedLen(), numerator.AnnouncedLen()-denominator.TrueLen()+2))
+	i.Resize(qLen)
 
 	if remainder != nil {
 		var rOut Int
